@@ -160,6 +160,104 @@ def run(ctx):
                     break
             if w.log.count(('reset', None)) != sum(1 for o in seq if o in ('match', 'imatch')):
                 ctx.counterexample('on_reset not called exactly once per run in %r' % (seq,), {'sequence': list(seq)})
+        # ---- hook values pass through unchanged (also None / 0 / '' from on_match; None from on_skip/on_error is dropped),
+        #      raising directory hooks, and 'nothing further beyond the file being processed' at every kill point --------
+        VALS = [None, 0, '', (), 'v', ('t', 1), False]
+
+        class Val(WM.WcMatch):
+            def on_init(self, **kw):
+                self.events = []        # what the hooks returned, in call order: (kind, base, name, value)
+                self.kill_at = kw.get('kill_at')      # kill from inside the k-th hook call that returns a value
+                self.bad_dirs = kw.get('bad_dirs', ())
+                self.bad_files = kw.get('bad_files', ())
+
+            def _ret(self, kind, base, name, value):
+                self.events.append((kind, base, name, value))
+                if self.kill_at is not None and len(self.events) == self.kill_at:
+                    self.kill()
+                return value
+
+            def on_validate_directory(self, base, name):
+                if name in self.bad_dirs:
+                    raise RuntimeError('bad dir')
+                return True
+
+            def on_validate_file(self, base, name):
+                if name in self.bad_files:
+                    raise RuntimeError('bad file')
+                return True
+
+            def on_match(self, base, name):
+                return self._ret('match', base, name, VALS[sum(map(ord, name)) % len(VALS)])
+
+            def on_skip(self, base, name):
+                return self._ret('skip', base, name, None if len(name) % 2 else ('S', name))
+
+            def on_error(self, base, name):
+                return self._ret('error', base, name, None if name.startswith('n') else ('E', name))
+
+        def expected(events):
+            return [v for (kind, b, nm, v) in events if kind == 'match' or v is not None]
+        vspec = [('top.txt', 'f', None), ('a.py', 'f', None), ('n.txt', 'f', None), ('bad', 'd', None), ('bad/x.txt', 'f', None),
+                 ('d1', 'd', None), ('d1/bad', 'd', None), ('d1/one.txt', 'f', None), ('d1/two.py', 'f', None),
+                 ('d2', 'd', None), ('d2/bad', 'd', None), ('d2/sub', 'd', None), ('d2/sub/bad', 'd', None), ('d2/sub/deep.txt', 'f', None),
+                 ('d2/nn.txt', 'f', None), ('d2/q.txt', 'f', None)]
+        with trees.Tree(vspec) as TV:
+            for bad_dirs, bad_files in (((), ()), (('bad',), ()), (('bad',), ('q.txt', 'nn.txt')), ((), ('top.txt',))):
+                kw = dict(bad_dirs=bad_dirs, bad_files=bad_files)
+                w = Val(TV.root, '*.txt', flags=WM.RECURSIVE, **kw)
+                full = w.match()
+                evals += 1
+                if full != expected(w.events):
+                    ctx.counterexample('hook values are not passed through unchanged: yielded %r, the hooks returned %r' % (full[:8], expected(w.events)[:8]),
+                                       {'tree': vspec, 'bad_dirs': list(bad_dirs), 'bad_files': list(bad_files)})
+                    continue
+                if w.match() != full:
+                    ctx.counterexample('a second match() of the same object returns a different sequence', {'tree': vspec})
+                nev = len(w.events)
+                base_events = list(w.events)
+                # kill from inside the k-th value-returning hook call
+                for k in range(1, nev + 1):
+                    evals += 1
+                    wk = Val(TV.root, '*.txt', flags=WM.RECURSIVE, kill_at=k, **kw)
+                    got = wk.match()
+                    # the file being processed when kill() ran may finish (its remaining hooks), nothing of any other entry may follow
+                    kb, kn = base_events[k - 1][1], base_events[k - 1][2]
+                    allowed = [e for i, e in enumerate(base_events) if i < k or (e[1], e[2]) == (kb, kn)]
+                    if wk.events != base_events[:len(wk.events)] or len(wk.events) > len(allowed) or got != expected(wk.events):
+                        ctx.counterexample('kill() inside hook call %d/%d: the run went on to %r (yielded %r)' % (
+                            k, nev, [(e[0], e[2]) for e in wk.events[k:]][:4], got[-3:]),
+                            {'tree': vspec, 'kill_at_hook': k, 'bad_dirs': list(bad_dirs), 'bad_files': list(bad_files)})
+                        break
+                    extra = [e for e in wk.events[k:] if (e[1], e[2]) != (kb, kn)]
+                    if extra:
+                        ctx.counterexample('kill() inside hook call %d/%d: hooks of other entries still ran: %r' % (k, nev, [(e[0], e[2]) for e in extra][:4]),
+                                           {'tree': vspec, 'kill_at_hook': k, 'bad_dirs': list(bad_dirs), 'bad_files': list(bad_files)})
+                        break
+                # kill by the consumer after the j-th yielded value
+                for j in range(0, len(full) + 1):
+                    evals += 1
+                    wj = Val(TV.root, '*.txt', flags=WM.RECURSIVE, **kw)
+                    got = []
+                    if j == 0:
+                        wj.kill()
+                    n_at_kill = None
+                    for v in wj.imatch():
+                        got.append(v)
+                        if len(got) == j:
+                            wj.kill()
+                            n_at_kill = len(wj.events)
+                    if j == 0:
+                        if got:
+                            ctx.counterexample('kill() before the run: still yielded %r' % (got[:3],), {'tree': vspec, 'bad_dirs': list(bad_dirs)})
+                        continue
+                    cur = wj.events[n_at_kill - 1]
+                    late = [e for e in wj.events[n_at_kill:] if (e[1], e[2]) != (cur[1], cur[2])]
+                    if got != full[:len(got)] or late:
+                        ctx.counterexample('consumer kill() after value %d: yielded %r of %r; hooks of other entries after the kill: %r' % (
+                            j, got[-3:], full[:j + 2][-3:], [(e[0], e[2]) for e in late][:3]),
+                            {'tree': vspec, 'kill_after_value': j, 'bad_dirs': list(bad_dirs), 'bad_files': list(bad_files)})
+                        break
         # kill from another thread at arbitrary moments: still a prefix
         for trial in range(30 if ctx.quick else 300):
             evals += 1
